@@ -32,6 +32,25 @@ def number (m : Counters) (t : Tag) : Counters × Tag :=
   | none => (setKey m t (some Gen.loopInit), t ++ [Gen.loopFirstSuffix])
   | some c => (setKey m t.dropLast (some (c + Gen.loopIncr)), t.dropLast ++ [c + Gen.loopIncr])
 
+/-- `LoopCombinator.restore(from_tags)`: for every `(prefix, iteration)` the counter of `prefix` becomes
+    `max(iteration_map.get(prefix, n), n)` with `n` the last component of `iteration` -/
+def restoreCounters (m : Counters) : List (Tag × Tag) → Counters
+  | [] => m
+  | (pre, it) :: r =>
+      let n := it.getLast?.getD 0
+      restoreCounters (setKey m pre (some (Gen.loopRestore ((m pre).getD n) n))) r
+
+/-- an arrival, or a restore, at the combinator -/
+inductive NEv where
+  | arrive (t : Tag)
+  | restore (pairs : List (Tag × Tag))
+
+/-- tags given to the arrivals of a sequence of arrivals and restores -/
+def numberEvs : Counters → List NEv → List Tag
+  | _, [] => []
+  | m, .arrive t :: r => (number m t).2 :: numberEvs (number m t).1 r
+  | m, .restore ps :: r => numberEvs (restoreCounters m ps) r
+
 /-- tags given to a sequence of arrivals -/
 def numberAll : Counters → List Tag → List Tag
   | _, [] => []
